@@ -168,14 +168,14 @@ def run_linop(ctx, prop, prop_file, n_quick, n_thorough, want):
     attempts = 0
     # structured part: a seeded sample (thorough: all) of the systematic combinator x operand-kind x storage-dtype grid
     try:
-        grid = [(A, log, real) for A, log in lingen.structured_trees(sp, rng) for real in (False, True)]
+        grid = [(A, log, real) for A, log in lingen.structured_trees(sp, rng) for real in (False, True, "f4")]
     except Exception as e:
         grid = []
         if "reject" in want:
             note_fail("gen-exception", "valid construction raised %r" % e, {"kind": "impl-exception", "error": repr(e), "chain": chain(e)})
     rng.shuffle(grid)
     # the rank-changing stacks are few: always all of them (complex storage), the rest sampled
-    always = [g for g in grid if "rank" in g[1][0] and not g[2]]
+    always = [g for g in grid if "rank" in g[1][0] and g[2] is False]
     grid = always + [g for g in grid if g not in always][:ctx.n(120, len(grid))]
     n += len(grid)
     while made < n and attempts < 6 * n:
@@ -209,6 +209,13 @@ def run_linop(ctx, prop, prop_file, n_quick, n_thorough, want):
         top = type(A).__name__
         desc = {"tree": repr(A)[:200], "kinds": c.log[:12], "ishape": list(map(int, A.ishape)), "oshape": list(map(int, A.oshape))}
         nontriv = not (top == "Identity")
+        expect = [e for e in c.log if isinstance(e, tuple) and e and e[0] == "expect"]
+        c.log = [e for e in c.log if not isinstance(e, tuple)]
+        desc["kinds"] = c.log[:12]
+        if expect and (list(map(int, A.oshape)) != list(expect[0][1]) or list(map(int, A.ishape)) != list(expect[0][2])):
+            note_fail("advertised-shape:" + c.log[0], "the stack advertises oshape %s / ishape %s, the definition gives %s / %s (%s)"
+                      % (list(A.oshape), list(A.ishape), expect[0][1], expect[0][2], " ".join(c.log)),
+                      {"kind": "oracle", "tree": desc, "term": T, "expected_oshape": expect[0][1], "expected_ishape": expect[0][2]})
         ctx.count(prop + ":" + (c.log[0] if c.log else top), key=T, nontrivial=nontriv, sample=desc)
         info = {"term": T, "desc": desc}
         x = cvec(rng, A.ishape, True)
@@ -220,20 +227,19 @@ def run_linop(ctx, prop, prop_file, n_quick, n_thorough, want):
         has_conv = any(type(o).__name__.startswith("Convolve") for _, o in S.opaque)
         real_ok = not has_conv
         single = False
-        if (real_ok and rng.random() < (0.4 if not S.opaque else 0.25) and force_real is None) or force_real:
-            x = np.ascontiguousarray(x.real)
-            single = bool(S.opaque)
-        elif real_ok and force_real is None and rng.random() < 0.15:
+        if force_real == "f4" or (real_ok and force_real is None and rng.random() < 0.3):
             # single-precision storage (float32 / complex64) of the same small integers: judged by the numpy oracles at single
             # precision, not compared inside Coq
-            x = (np.ascontiguousarray(x.real) if rng.random() < 0.5 else x).astype(np.float32 if rng.random() < 0.5 and not np.iscomplexobj(x) else np.complex64)
-            if rng.random() < 0.5:
-                x = np.ascontiguousarray(x.real).astype(np.float32)
+            x = np.ascontiguousarray(x.real).astype(np.float32) if (force_real == "f4" or rng.random() < 0.6) else x.astype(np.complex64)
             single = True
+        elif (real_ok and rng.random() < (0.4 if not S.opaque else 0.25) and force_real is None) or force_real is True:
+            x = np.ascontiguousarray(x.real)
+            single = bool(S.opaque)
         yv = cvec(rng, A.oshape, True)
         if real_ok and rng.random() < 0.25:
             yv = np.ascontiguousarray(yv.real)
             single = single or bool(S.opaque)
+        ctx.coverage["histogram"]["input-storage:" + str(x.dtype)] = ctx.coverage["histogram"].get("input-storage:" + str(x.dtype), 0) + 1
         x0, yv0 = x.copy(), yv.copy()
         snaps = [(a, a.copy()) for _, a in S.arrays.values()]
         try:
